@@ -17,8 +17,11 @@ def gen_scalar(r, profile="json"):
     c = r.random()
     if c < 0.30:
         return r.choice([0, 1, 2, 3, 5, 7, 10, 12, 100, -1])
-    if c < 0.65:
+    if c < 0.60:
         return r.choice(STR_POOL)
+    if c < 0.65:
+        # a longer string over a tiny alphabet: many equally good alignments, slow convergence of string edits
+        return "".join(r.choice("abz") for _ in range(r.choice([6, 9, 14, 22])))
     if c < 0.75:
         return r.choice([True, False])
     if c < 0.83:
